@@ -47,7 +47,7 @@ META = {
     "assumptions": ["the Full update without selective update (cpu and network) is the reference configuration",
                     "cpu/optim:TI domain = single-core hosts, no user bound, repeating speed profiles starting at date 0 (what cpu_ti.cpp asserts / integrates)",
                     "workloads whose control flow or event merging depends on date comparisons below precision/timing are outside 'the same within precision'"],
-    "ready": False,
+    "ready": True,
 }
 
 CPU = {"Lazy": [], "Fullsel": ["--cfg=cpu/optim:Full", "--cfg=cpu/maxmin-selective-update:yes"], "Full": ["--cfg=cpu/optim:Full"],
